@@ -107,7 +107,7 @@ def holds (env : Env) (sc : Scenario) (obs : List Obs) : Bool :=
      spec.values.all (fun e => e.2.isEmpty ||
         Http.sortBytes (Http.valuesOf e.1 m.headers) == splitVals e.2))
 
-open Qhttp.HB Qhttp.Http Qhttp.C03L Qhttp.HeaderMap
+open Qhttp.HB Qhttp.Http Qhttp.C03L Qhttp.HeaderMap Qhttp.Sock
 
 /-! ## Proofs -/
 
@@ -392,5 +392,777 @@ theorem entryOk_of_wf {n v : Bytes}
   simp only [Bool.and_eq_true, Bool.not_eq_true', List.isEmpty_eq_false_iff] at h
   obtain ⟨⟨⟨⟨h1, h2⟩, h3⟩, h4⟩, _⟩ := h
   exact ⟨h1, containsByte_eq_false.mp h2, not_hasCRLF h3, not_hasCRLF h4⟩
+
+/-! ### the simulation invariant between `Sock` and `Spec` -/
+
+/-- `head` is the serialisation of a status line and a header block that denote
+    `(code, reason, values)` -/
+def HeadOk (head : Bytes) (code : Int) (reason : Bytes) (values : List (Bytes × List Bytes)) : Prop :=
+  ∃ m, head = HTTP10 ++ intText code ++ [SP] ++ reason ++ CRLF ++ Sock.headerLines m ++ CRLF ∧
+       0 ≤ code ∧ CR ∉ reason ∧ HdrRel m values
+
+/-- before the head is emitted the socket holds what the abstract response holds -/
+structure Pre (s : Sock) (sp : Spec) : Prop where
+  ws : s.ws = .none
+  code : s.code = sp.code
+  reason : s.reason = sp.reason
+  codeOk : 0 ≤ sp.code
+  reasonOk : CR ∉ sp.reason
+  hdr : HdrRel s.respHeaders sp.values
+  body : sp.body = []
+
+/-- `st` is the `started` flag `wfOps` has reached -/
+structure WInv (st : Bool) (s : Sock) (sp : Spec) : Prop where
+  stW : sp.started = true → st = true
+  opn : sp.closed = false → Open s
+  shut : sp.closed = true → Shut s
+  pre : sp.closed = false → sp.started = false → Pre s sp
+  post : sp.closed = false → sp.started = true → s.ws ≠ .none
+  wire0 : sp.started = false → chunks s.log = []
+  wire1 : sp.started = true →
+    ∃ head cs, chunks s.log = head :: cs ∧ cs.flatten = sp.body ∧ HeadOk head sp.code sp.reason sp.values
+
+theorem Pre.headOk {s : Sock} {sp : Spec} (h : Pre s sp) : HeadOk (headBytes s) sp.code sp.reason sp.values :=
+  ⟨s.respHeaders, by rw [← h.code, ← h.reason]; rfl, h.codeOk, h.reasonOk, h.hdr⟩
+
+/-- a step that changes neither the abstract response nor (before the head) the pending head -/
+theorem WInv.neutral {st st' : Bool} {s s' : Sock} {sp : Spec} (h : WInv st s sp)
+    (hst : st = true → st' = true)
+    (ho : sp.closed = false → Open s') (hs : sp.closed = true → Shut s')
+    (hc : chunks s'.log = chunks s.log)
+    (hw : sp.closed = false → (s'.ws = .none ↔ s.ws = .none))
+    (hf : sp.closed = false → sp.started = false →
+          s'.code = s.code ∧ s'.reason = s.reason ∧ s'.respHeaders = s.respHeaders) :
+    WInv st' s' sp := by
+  refine ⟨fun x => hst (h.stW x), ho, hs, ?_, ?_, ?_, ?_⟩
+  · intro a b
+    obtain ⟨p1, p2, p3, p4, p5, p6, p7⟩ := h.pre a b
+    obtain ⟨f1, f2, f3⟩ := hf a b
+    exact ⟨(hw a).mpr p1, f1 ▸ p2, f2 ▸ p3, p4, p5, f3 ▸ p6, p7⟩
+  · intro a b e; exact h.post a b ((hw a).mp e)
+  · intro a; rw [hc]; exact h.wire0 a
+  · intro a; rw [hc]; exact h.wire1 a
+
+theorem winv_init : WInv false { ({} : Sock) with log := [Obs.ev 0], initPending := true } {} := by
+  refine ⟨by simp, fun _ => ?_, by simp, fun _ _ => ?_, by simp, fun _ => rfl, by simp⟩
+  · exact ⟨⟨rfl, rfl, rfl, by simp⟩, rfl, rfl, rfl, rfl, rfl, rfl, by intro o ho; simp at ho; subst ho; rfl⟩
+  · exact ⟨rfl, rfl, by decide, by decide, by decide, hdrRel_nil, rfl⟩
+
+theorem api_eq_of_open (env : Env) (app : App) {s s' : Sock} {op : ApiOp} (e : apiPrim env s op = s')
+    (h : Open s') : api env app s op = s' := by
+  subst e; exact api_of_open env app op h
+
+theorem flatten_opt (b : Bytes) : (if b = [] then ([] : List Bytes) else [b]).flatten = b := by
+  split <;> simp_all
+
+/-- the response stays open and un-started: only the pending head changed -/
+theorem WInv.preUpdate {st st' : Bool} {s s' : Sock} {sp sp' : Spec} (h : WInv st s sp)
+    (hs : sp.started = false) (ho : Open s') (hl : chunks s'.log = chunks s.log)
+    (hs' : sp'.started = false) (hc' : sp'.closed = false) (hp : Pre s' sp') : WInv st' s' sp' :=
+  ⟨fun x => (by rw [hs'] at x; cases x), fun _ => ho, fun x => (by rw [hc'] at x; cases x), fun _ _ => hp,
+   fun _ x => (by rw [hs'] at x; cases x), fun _ => (by rw [hl]; exact h.wire0 hs),
+   fun x => (by rw [hs'] at x; cases x)⟩
+
+/-- a started response -/
+theorem WInv.mkStarted {s : Sock} {sp : Spec} (hs : sp.started = true)
+    (ho : sp.closed = false → Open s ∧ s.ws ≠ .none) (hsh : sp.closed = true → Shut s)
+    (hw : ∃ head cs, chunks s.log = head :: cs ∧ cs.flatten = sp.body ∧ HeadOk head sp.code sp.reason sp.values) :
+    WInv true s sp :=
+  ⟨fun _ => rfl, fun x => (ho x).1, hsh, fun _ x => (by rw [hs] at x; cases x), fun x _ => (ho x).2,
+   fun x => (by rw [hs] at x; cases x), fun _ => hw⟩
+
+/-- `close()` and the convenience calls on a response that is not started yet and stays so -/
+theorem WInv.closeNow {st st' : Bool} {s s' : Sock} {sp sp' : Spec} (h : WInv st s sp) (hst : st = true → st' = true)
+    (hsh : Shut s') (hl : chunks s'.log = chunks s.log) (hc' : sp'.closed = true)
+    (hs' : sp'.started = sp.started) (hb : sp'.body = sp.body) (hcode : sp'.code = sp.code)
+    (hr : sp'.reason = sp.reason) (hv : sp'.values = sp.values) : WInv st' s' sp' :=
+  ⟨fun x => hst (h.stW (hs' ▸ x)), fun x => (by rw [hc'] at x; cases x), fun _ => hsh,
+   fun x => (by rw [hc'] at x; cases x), fun x => (by rw [hc'] at x; cases x),
+   fun x => (by rw [hl]; exact h.wire0 (hs' ▸ x)),
+   fun x => (by rw [hl, hb, hcode, hr, hv]; exact h.wire1 (hs' ▸ x))⟩
+
+/-- the reason phrase a status call puts in effect -/
+def effReason (c : Int) (r : Option Bytes) : Bytes :=
+  match r with | some x => x | none => statusReason c
+
+theorem effReason_ok {c : Int} {r : Option Bytes}
+    (h : (match r with | some x => !hasCRLF x | none => true) = true) : CR ∉ effReason c r :=
+  reason_ok h
+
+theorem entryOk_CL (n : Nat) : EntryOk (CONTENT_LENGTH, natDigits n) :=
+  ⟨(by decide : CONTENT_LENGTH ≠ []), (by decide : COLON ∉ CONTENT_LENGTH), (by decide : CR ∉ CONTENT_LENGTH),
+   natDigits_not_mem n (Or.inl (by decide))⟩
+
+theorem entryOk_CT_html : EntryOk (CONTENT_TYPE, TEXT_HTML) := ⟨by decide, by decide, by decide, by decide⟩
+theorem entryOk_CT_json : EntryOk (CONTENT_TYPE, APP_JSON) := ⟨by decide, by decide, by decide, by decide⟩
+
+theorem entryOk_location {p : Bytes} (h : CR ∉ p) : EntryOk (lit ['L','o','c','a','t','i','o','n'], p) :=
+  ⟨(by decide : lit ['L','o','c','a','t','i','o','n'] ≠ []),
+   (by decide : COLON ∉ lit ['L','o','c','a','t','i','o','n']),
+   (by decide : CR ∉ lit ['L','o','c','a','t','i','o','n']), h⟩
+
+/-- one response-side call on a response that is not closed yet -/
+theorem winv_api_open {app : App} (hq : QuietApp app) (env : Env) {st : Bool} {s : Sock} {sp : Spec}
+    (h : WInv st s sp) (hc : sp.closed = false) {op : ApiOp} (hop : respOp op = true)
+    (hwf : wfOp op st = true) :
+    WInv (nextSt op st) (api env app s op) (Spec.step env.errPage sp op) := by
+  have ho := h.opn hc
+  have hcl : ∀ {P : Prop}, sp.closed = true → P := fun x => by rw [hc] at x; cases x
+  by_cases hs : sp.started = true
+  · -- the head is out: setters no longer matter, writes extend the body
+    have hst := h.stW hs
+    have hns : ∀ {P : Prop}, sp.started = false → P := fun x => by rw [hs] at x; cases x
+    obtain ⟨head, cs, w1, w2, w3⟩ := h.wire1 hs
+    cases op <;> simp only [respOp, Bool.false_eq_true] at hop
+    · rename_i c r
+      have e : Spec.step env.errPage sp (.status c r) = sp := by simp [Spec.step, hc, hs]
+      rw [e, api_eq_of_open env app (apiPrim_status env ho c r) (open_setStatusCode ho c r)]
+      exact h.neutral (nextSt_mono _) (fun _ => open_setStatusCode ho c r) hcl rfl (fun _ => Iff.rfl)
+        (fun _ x => hns x)
+    · rename_i n v r
+      have e : Spec.step env.errPage sp (.hdr n v r) = sp := by
+        cases r <;> simp [Spec.step, hc, hs]
+      rw [e, api_eq_of_open env app (apiPrim_hdr env ho n v r) (ho.of_eq rfl ho.logOpen)]
+      exact h.neutral (nextSt_mono _) (fun _ => ho.of_eq rfl ho.logOpen) hcl rfl (fun _ => Iff.rfl)
+        (fun _ x => hns x)
+    · rename_i m
+      have e : Spec.step env.errPage sp (.hdrs m) = sp := by simp [Spec.step, hc, hs]
+      rw [e, api_eq_of_open env app (apiPrim_hdrs env ho m) (ho.of_eq rfl ho.logOpen)]
+      exact h.neutral (nextSt_mono _) (fun _ => ho.of_eq rfl ho.logOpen) hcl rfl (fun _ => Iff.rfl)
+        (fun _ x => hns x)
+    · simp [wfOp, hst] at hwf
+    · rename_i b
+      have e : Spec.step env.errPage sp (.write b) = { sp with started := true, body := sp.body ++ b } := by
+        simp [Spec.step, hc]
+      obtain ⟨o1, o2, o3⟩ := open_write ho b
+      rw [e, api_eq_of_open env app (apiPrim_write env ho b) o1]
+      refine WInv.mkStarted rfl (fun _ => ⟨o1, o2⟩) hcl ?_
+      refine ⟨head, cs ++ (if b = [] then [] else [b]), ?_, ?_, w3⟩
+      · rw [o3, if_neg (h.post hc hs), w1]; simp
+      · show (cs ++ _).flatten = sp.body ++ b
+        rw [List.flatten_append, w2, flatten_opt]
+    · simp [wfOp, hst] at hwf
+    · simp [wfOp, hst] at hwf
+    · simp [wfOp, hst] at hwf
+    · have e : Spec.step env.errPage sp .close = { sp with closed := true } := by simp [Spec.step, hc]
+      obtain ⟨c1, c2⟩ := open_closeDc hq env ho
+      rw [e, api_close env app ho]
+      exact h.closeNow (nextSt_mono _) c1 c2 rfl rfl rfl rfl rfl rfl
+  · -- nothing is on the wire yet
+    have hs : sp.started = false := by simpa using hs
+    have P := h.pre hc hs
+    have w0 := h.wire0 hs
+    cases op <;> simp only [respOp, Bool.false_eq_true] at hop
+    · rename_i c r
+      simp only [wfOp, Bool.and_eq_true, decide_eq_true_eq] at hwf
+      have e : Spec.step env.errPage sp (.status c r) = sp.status c r := by simp [Spec.step, hc, hs]
+      rw [e, api_eq_of_open env app (apiPrim_status env ho c r) (open_setStatusCode ho c r)]
+      exact h.preUpdate hs (open_setStatusCode ho c r) rfl hs hc
+        ⟨P.ws, rfl, rfl, hwf.1, reason_ok hwf.2, P.hdr, P.body⟩
+    · rename_i n v r
+      have he := entryOk_of_wf hwf
+      rw [api_eq_of_open env app (apiPrim_hdr env ho n v r) (ho.of_eq rfl ho.logOpen)]
+      cases r
+      · have e : Spec.step env.errPage sp (.hdr n v false) =
+            { sp with values := setVals n (fun vs => vs ++ [v]) sp.values } := by simp [Spec.step, hc, hs]
+        rw [e]
+        exact h.preUpdate hs (ho.of_eq rfl ho.logOpen) rfl hs hc
+          ⟨P.ws, P.code, P.reason, P.codeOk, P.reasonOk, hdrRel_append P.hdr he, P.body⟩
+      · have e : Spec.step env.errPage sp (.hdr n v true) =
+            { sp with values := setVals n (fun _ => [v]) sp.values } := by simp [Spec.step, hc, hs]
+        rw [e]
+        exact h.preUpdate hs (ho.of_eq rfl ho.logOpen) rfl hs hc
+          ⟨P.ws, P.code, P.reason, P.codeOk, P.reasonOk, hdrRel_replace P.hdr he, P.body⟩
+    · rename_i m
+      have hm : ∀ e ∈ m, EntryOk e := by
+        simp only [wfOp, List.all_eq_true] at hwf
+        intro e he; exact entryOk_of_wf (hwf e he)
+      have e : Spec.step env.errPage sp (.hdrs m) =
+          { sp with values := m.foldl (fun acc e => setVals e.1 (fun vs => vs ++ [e.2]) acc) [] } := by
+        simp [Spec.step, hc, hs]
+      rw [e, api_eq_of_open env app (apiPrim_hdrs env ho m) (ho.of_eq rfl ho.logOpen)]
+      exact h.preUpdate hs (ho.of_eq rfl ho.logOpen) rfl hs hc
+        ⟨P.ws, P.code, P.reason, P.codeOk, P.reasonOk, hdrRel_foldl m hm hdrRel_nil, P.body⟩
+    · have e : Spec.step env.errPage sp .wh = { sp with started := true } := by simp [Spec.step, hc]
+      obtain ⟨o1, o2, o3⟩ := open_writeHeaders ho
+      rw [e, api_eq_of_open env app (apiPrim_wh env ho) o1]
+      refine WInv.mkStarted rfl (fun _ => ⟨o1, by rw [o3]; simp⟩) hcl ⟨headBytes s, [], ?_, ?_, P.headOk⟩
+      · rw [o2, chunks_append, w0, chunks_w]; rfl
+      · exact P.body.symm
+    · rename_i b
+      have e : Spec.step env.errPage sp (.write b) = { sp with started := true, body := sp.body ++ b } := by
+        simp [Spec.step, hc]
+      obtain ⟨o1, o2, o3⟩ := open_write ho b
+      rw [e, api_eq_of_open env app (apiPrim_write env ho b) o1]
+      refine WInv.mkStarted rfl (fun _ => ⟨o1, o2⟩) hcl
+        ⟨headBytes s, (if b = [] then [] else [b]), ?_, ?_, P.headOk⟩
+      · rw [o3, if_pos P.ws, w0]; rfl
+      · show _ = sp.body ++ b
+        rw [flatten_opt, P.body]; rfl
+    · -- writeError
+      rename_i c r
+      simp only [wfOp, Bool.and_eq_true, decide_eq_true_eq] at hwf
+      obtain ⟨⟨_, hc0⟩, hr0⟩ := hwf
+      rw [api_err env app ho c r]
+      have e3 : setHeader (setHeader (setStatusCode s c r) CONTENT_LENGTH
+            (natDigits (env.errPage (setStatusCode s c r).code (setStatusCode s c r).reason).length) true)
+            CONTENT_TYPE TEXT_HTML true =
+          { s with code := c, reason := (effReason c r),
+                   respHeaders := hset CONTENT_TYPE TEXT_HTML true (hset CONTENT_LENGTH
+                     (natDigits (env.errPage c (effReason c r)).length)
+                     true s.respHeaders) } := by
+        simp only [setHeader_eq]; cases r <;> rfl
+      rw [e3]
+      have o3 := ho.setHead c (effReason c r)
+        (hset CONTENT_TYPE TEXT_HTML true (hset CONTENT_LENGTH
+          (natDigits (env.errPage c (effReason c r)).length)
+          true s.respHeaders))
+      obtain ⟨o4, l4, w4⟩ := open_writeHeaders o3
+      obtain ⟨o5, _, l5⟩ := open_write o4 (env.errPage (setStatusCode s c r).code (setStatusCode s c r).reason)
+      obtain ⟨c1, c2⟩ := open_closeDc hq env o5
+      have e : Spec.step env.errPage sp (.err c r) =
+          { sp with code := c, reason := (effReason c r),
+                    values := setVals CONTENT_TYPE (fun _ => [TEXT_HTML]) (setVals CONTENT_LENGTH
+                      (fun _ => [natDigits (env.errPage c
+                        (effReason c r)).length]) sp.values),
+                    started := true, closed := true,
+                    body := env.errPage c (effReason c r) } := by
+        cases r <;> simp [Spec.step, hc, hs, Spec.status, effReason]
+      rw [e]
+      refine WInv.mkStarted rfl (fun x => by cases x) (fun _ => c1) ?_
+      rw [c2, l5, w4, if_neg (by decide : ¬ WState.headers = WState.none), l4, chunks_append, w0, chunks_w]
+      exact ⟨_, _, rfl, flatten_opt _, _, rfl, hc0, effReason_ok hr0,
+          hdrRel_replace (hdrRel_replace P.hdr (entryOk_CL _)) entryOk_CT_html⟩
+    · -- writeRedirect
+      rename_i p pm
+      simp only [wfOp, Bool.and_eq_true, Bool.not_eq_true'] at hwf
+      rw [api_redir env app ho p pm]
+      have e3 : setHeader (setStatusCode s (if pm then 301 else 302) none)
+            (lit ['L','o','c','a','t','i','o','n']) p true =
+          { s with code := (if pm then 301 else 302), reason := statusReason (if pm then 301 else 302),
+                   respHeaders := hset (lit ['L','o','c','a','t','i','o','n']) p true s.respHeaders } := by
+        simp [setHeader_eq, setStatusCode]
+      rw [e3]
+      have o3 := ho.setHead (if pm then 301 else 302) (statusReason (if pm then 301 else 302))
+        (hset (lit ['L','o','c','a','t','i','o','n']) p true s.respHeaders)
+      obtain ⟨o4, l4, w4⟩ := open_writeHeaders o3
+      obtain ⟨c1, c2⟩ := open_closeDc hq env o4
+      have e : Spec.step env.errPage sp (.redir p pm) =
+          { sp with code := (if pm then 301 else 302), reason := statusReason (if pm then 301 else 302),
+                    values := setVals (lit ['L','o','c','a','t','i','o','n']) (fun _ => [p]) sp.values,
+                    started := true, closed := true } := by
+        simp [Spec.step, hc, hs, Spec.status]
+      rw [e]
+      refine WInv.mkStarted rfl (fun x => by cases x) (fun _ => c1) ?_
+      rw [c2, l4, chunks_append, w0, chunks_w]
+      exact ⟨_, [], rfl, P.body.symm, _, rfl, (show (0 : Int) ≤ (if pm = true then 301 else 302) by cases pm <;> decide),
+          CR_not_mem_statusReason _,
+          hdrRel_replace P.hdr (entryOk_location (not_hasCRLF hwf.2))⟩
+    · -- writeJson
+      rename_i b c
+      simp only [wfOp, Bool.and_eq_true, decide_eq_true_eq] at hwf
+      rw [api_json env app ho b c]
+      have e3 : setHeader (setHeader (setStatusCode s c none) CONTENT_LENGTH (natDigits b.length) true)
+            CONTENT_TYPE APP_JSON true =
+          { s with code := c, reason := statusReason c,
+                   respHeaders := hset CONTENT_TYPE APP_JSON true (hset CONTENT_LENGTH
+                     (natDigits b.length) true s.respHeaders) } := by
+        simp [setHeader_eq, setStatusCode]
+      rw [e3]
+      have o3 := ho.setHead c (statusReason c)
+        (hset CONTENT_TYPE APP_JSON true (hset CONTENT_LENGTH (natDigits b.length) true s.respHeaders))
+      obtain ⟨o5, _, l5⟩ := open_write o3 b
+      obtain ⟨c1, c2⟩ := open_closeDc hq env o5
+      have e : Spec.step env.errPage sp (.json b c) =
+          { sp with code := c, reason := statusReason c,
+                    values := setVals CONTENT_TYPE (fun _ => [APP_JSON]) (setVals CONTENT_LENGTH
+                      (fun _ => [natDigits b.length]) sp.values),
+                    started := true, closed := true, body := b } := by
+        simp [Spec.step, hc, hs, Spec.status]
+      rw [e]
+      refine WInv.mkStarted rfl (fun x => by cases x) (fun _ => c1) ?_
+      rw [c2, l5, if_pos (show _ = WState.none from P.ws), w0]
+      exact ⟨_, _, rfl, flatten_opt _, _, rfl, hwf.2, CR_not_mem_statusReason _,
+          hdrRel_replace (hdrRel_replace P.hdr (entryOk_CL _)) entryOk_CT_json⟩
+    · have e : Spec.step env.errPage sp .close = { sp with closed := true } := by simp [Spec.step, hc]
+      obtain ⟨c1, c2⟩ := open_closeDc hq env ho
+      rw [e, api_close env app ho]
+      exact h.closeNow (nextSt_mono _) c1 c2 rfl rfl rfl rfl rfl rfl
+
+/-! ### lifting over external events -/
+
+theorem WInv.ev {st : Bool} {s : Sock} {sp : Spec} (h : WInv st s sp) (hc : sp.closed = false) (k : Nat) :
+    WInv st { s with log := s.log ++ [Obs.ev k] } sp :=
+  h.neutral id (fun _ => (h.opn hc).ev k) (fun x => by rw [hc] at x; cases x) (chunks_ev _ _)
+    (fun _ => Iff.rfl) (fun _ _ => ⟨rfl, rfl, rfl⟩)
+
+theorem winv_stepK_api {app : App} (hq : QuietApp app) (env : Env) {st : Bool} {s : Sock} {sp : Spec} (k : Nat)
+    (h : WInv st s sp) {op : ApiOp} (hop : respOp op = true) (hwf : wfOp op st = true) :
+    WInv (nextSt op st) (stepK env app (s, k) (.api op)).1 (Spec.step env.errPage sp op) := by
+  by_cases hc : sp.closed = true
+  · have e : Spec.step env.errPage sp op = sp := by simp [Spec.step, hc]
+    obtain ⟨h1, e1, _⟩ := shut_stepK hq env k (h.shut hc) (e := .api op) hop
+    rw [e]
+    exact h.neutral (nextSt_mono op) (fun x => by rw [hc] at x; cases x) (fun _ => h1) e1
+      (fun x => by rw [hc] at x; cases x) (fun x => by rw [hc] at x; cases x)
+  · have hc : sp.closed = false := by simpa using hc
+    have ho := h.opn hc
+    rw [stepK_alive env app k _ ho.alive, step_api env app op (by exact ho.alive)]
+    exact winv_api_open hq env (h.ev hc k) hc hop hwf
+
+theorem winv_stepK_other {app : App} (hq : QuietApp app) (env : Env) {st : Bool} {s : Sock} {sp : Spec} (k : Nat)
+    (h : WInv st s sp) {e : Event} (he : allowedEv e = true) (hne : ∀ op, e ≠ .api op) :
+    WInv st (stepK env app (s, k) e).1 sp := by
+  by_cases hc : sp.closed = true
+  · obtain ⟨h1, e1, _⟩ := shut_stepK hq env k (h.shut hc) he
+    exact h.neutral id (fun x => by rw [hc] at x; cases x) (fun _ => h1) e1
+      (fun x => by rw [hc] at x; cases x) (fun x => by rw [hc] at x; cases x)
+  · have hc : sp.closed = false := by simpa using hc
+    have ho := h.opn hc
+    have hcl : ∀ {P : Prop}, sp.closed = true → P := fun x => by rw [hc] at x; cases x
+    have h' := h.ev hc k
+    have ho' := ho.ev k
+    rw [stepK_alive env app k _ ho.alive]
+    cases e <;> simp only [allowedEv, Bool.false_eq_true] at he
+    · rename_i n
+      have : step env app { s with log := s.log ++ [Obs.ev k] } (.ack n) =
+          ackN env app { s with log := s.log ++ [Obs.ev k] } n := by simp [step, ho.alive]
+      rw [this]
+      obtain ⟨a1, a2, a3, a4, a5, a6⟩ := open_ackN hq env ho' n
+      exact h'.neutral id (fun _ => a1) hcl a2 (fun _ => a6) (fun _ _ => ⟨a3, a4, a5⟩)
+    · have : step env app { s with log := s.log ++ [Obs.ev k] } .ackAll =
+          ackN env app { s with log := s.log ++ [Obs.ev k] } s.tcp.unacked := by simp [step, ho.alive]
+      rw [this]
+      obtain ⟨a1, a2, a3, a4, a5, a6⟩ := open_ackN hq env ho' s.tcp.unacked
+      exact h'.neutral id (fun _ => a1) hcl a2 (fun _ => a6) (fun _ _ => ⟨a3, a4, a5⟩)
+    · obtain ⟨a1, a2, a3, a4, a5, a6⟩ := open_turn env app ho'
+      exact h'.neutral id (fun _ => a1) hcl (by rw [a2]) (fun _ => by rw [a6]) (fun _ _ => ⟨a3, a4, a5⟩)
+    · exact absurd rfl (hne _)
+
+theorem apiOps_cons_api (app : App) (op : ApiOp) (evs : List Event) :
+    apiOps ⟨app, .api op :: evs⟩ = op :: apiOps ⟨app, evs⟩ := rfl
+
+theorem apiOps_cons_other (app : App) {e : Event} (evs : List Event) (hne : ∀ op, e ≠ .api op) :
+    apiOps ⟨app, e :: evs⟩ = apiOps ⟨app, evs⟩ := by
+  cases e <;> first | rfl | exact absurd rfl (hne _)
+
+/-- the invariant holds along every history of allowed events that satisfies `wfOps` -/
+theorem winv_run {app : App} (hq : QuietApp app) (env : Env) :
+    ∀ (evs : List Event) {st : Bool} {s : Sock} {sp : Spec} (k : Nat), WInv st s sp →
+      (∀ e ∈ evs, allowedEv e = true) → wfOps (apiOps ⟨app, evs⟩) st = true →
+      ∃ st', WInv st' (evs.foldl (stepK env app) (s, k)).1
+        ((apiOps ⟨app, evs⟩).foldl (Spec.step env.errPage) sp)
+  | [], st, s, sp, k, h, _, _ => ⟨st, h⟩
+  | e :: evs, st, s, sp, k, h, hal, hwf => by
+    have he := hal e (by simp)
+    have hal' : ∀ e ∈ evs, allowedEv e = true := fun x hx => hal x (by simp [hx])
+    by_cases hapi : ∃ op, e = .api op
+    · obtain ⟨op, rfl⟩ := hapi
+      rw [apiOps_cons_api, wfOps_cons, Bool.and_eq_true] at hwf
+      rw [apiOps_cons_api, List.foldl_cons, List.foldl_cons]
+      exact winv_run hq env evs _ (winv_stepK_api hq env k h he hwf.1) hal' hwf.2
+    · have hne : ∀ op, e ≠ .api op := fun op x => hapi ⟨op, x⟩
+      rw [apiOps_cons_other app evs hne] at hwf ⊢
+      rw [List.foldl_cons]
+      exact winv_run hq env evs _ (winv_stepK_other hq env k h he hne) hal' hwf
+
+/-! ### the executable predicate follows from the invariant -/
+
+theorem CR_not_mem_start {code : Int} {reason : Bytes} (hc : 0 ≤ code) (hr : CR ∉ reason) :
+    CR ∉ HTTP10 ++ intText code ++ [SP] ++ reason := by
+  rw [intText_of_nonneg hc]
+  simp only [List.mem_append, not_or]
+  exact ⟨⟨⟨by decide, natDigits_not_mem _ (Or.inl (by decide))⟩, by decide⟩, hr⟩
+
+theorem holds_of_winv {st : Bool} {s : Sock} {sp : Spec} (h : WInv st s sp) :
+    (Obs.countP Obs.isW (s.log.dropWhile (fun o => !Obs.isTc o)) == 0 &&
+     (if sp.closed then Obs.countP Obs.isTc s.log == 1 else Obs.countP Obs.isTc s.log == 0) &&
+     (if !sp.started then (Obs.wire s.log).isEmpty else
+      match Http.parse (Obs.wire s.log) with
+      | none => false
+      | some m =>
+        (match Http.statusLine m.start with
+         | some st => (st.code : Int) == sp.code && st.reason == sp.reason
+         | none => false) &&
+        m.body == sp.body &&
+        (Http.names m.headers).all (fun n => (sp.values.any fun e => e.1 == n && !e.2.isEmpty)) &&
+        sp.values.all (fun e => e.2.isEmpty ||
+           Http.sortBytes (Http.valuesOf e.1 m.headers) == splitVals e.2))) = true := by
+  have p1 : Obs.countP Obs.isW (afterTc s.log) = 0 ∧
+      (if sp.closed then Obs.countP Obs.isTc s.log == 1 else Obs.countP Obs.isTc s.log == 0) = true := by
+    by_cases hc : sp.closed = true
+    · have := (h.shut hc).logShut
+      simp [hc, this.oneTc, this.noW]
+    · have hc : sp.closed = false := by simpa using hc
+      have := (h.opn hc).logOpen
+      rw [afterTc_of_logOpen this, countTc_of_logOpen this]
+      simp [hc, Obs.countP]
+  have p3 : (if !sp.started then (Obs.wire s.log).isEmpty else
+      match Http.parse (Obs.wire s.log) with
+      | none => false
+      | some m =>
+        (match Http.statusLine m.start with
+         | some st => (st.code : Int) == sp.code && st.reason == sp.reason
+         | none => false) &&
+        m.body == sp.body &&
+        (Http.names m.headers).all (fun n => (sp.values.any fun e => e.1 == n && !e.2.isEmpty)) &&
+        sp.values.all (fun e => e.2.isEmpty ||
+           Http.sortBytes (Http.valuesOf e.1 m.headers) == splitVals e.2)) = true := by
+    by_cases hs : sp.started = true
+    · obtain ⟨head, cs, w1, w2, m, hh, hcode, hreason, hrel⟩ := h.wire1 hs
+      have hw : Obs.wire s.log =
+          (HTTP10 ++ intText sp.code ++ [SP] ++ sp.reason) ++ CRLF ++ Sock.headerLines m ++ CRLF ++ sp.body := by
+        rw [wire_eq_chunks, w1, List.flatten_cons, w2, hh]
+      rw [hw, parse_render _ m sp.body (CR_not_mem_start hcode hreason) hrel.wf]
+      obtain ⟨c1, c2⟩ := hdrRel_check hrel
+      simp only [hs, Bool.not_true, Bool.false_eq_true, if_false, statusLine_intText hcode, c1, c2,
+        beq_self_eq_true, Bool.and_true, beq_iff_eq]
+      omega
+    · have hs : sp.started = false := by simpa using hs
+      simp [hs, wire_eq_chunks, h.wire0 hs]
+  show (Obs.countP Obs.isW (afterTc s.log) == 0 && _ && _) = true
+  rw [p1.1, p1.2, p3]; rfl
+
+/-! ### main theorem -/
+
+theorem run_new (env : Env) (app : App) (rest : List Event) :
+    Scenario.run env ⟨app, .new :: rest⟩ =
+      (rest.foldl (stepK env app) ({ ({} : Sock) with log := [Obs.ev 0], initPending := true }, 1)).1 := rfl
+
+/-- **C03**: for every environment, every application whose `bytesWritten` / `disconnected`
+    reactions make no call, and every history `new` followed by response-side calls,
+    acknowledgements and event-loop turns, the executable predicate holds on the model run. -/
+theorem holds_run (env : Env) (app : App) (hq : QuietApp app) (rest : List Event)
+    (hr : ∀ e ∈ rest, allowedEv e = true) :
+    holds env ⟨app, .new :: rest⟩ (Scenario.run env ⟨app, .new :: rest⟩).log = true := by
+  unfold holds
+  have ha : apiOps ⟨app, .new :: rest⟩ = apiOps ⟨app, rest⟩ := rfl
+  simp only [ha]
+  by_cases hwf : wfOps (apiOps ⟨app, rest⟩) false = true
+  · obtain ⟨st', h⟩ := winv_run hq env rest 1 winv_init hr hwf
+    rw [run_new]
+    simp only [hwf, Bool.not_true, Bool.false_eq_true, if_false]
+    exact holds_of_winv h
+  · simp [hwf]
+
+/-! ### what `holds` means, in plain terms -/
+
+/-- the abstract response a history denotes -/
+def specOf (env : Env) (evs : List Event) : Spec :=
+  (apiOps ⟨{}, evs⟩).foldl (Spec.step env.errPage) {}
+
+/-- the invariant at the end of every admissible run -/
+theorem run_winv (env : Env) (app : App) (hq : QuietApp app) (rest : List Event)
+    (hr : ∀ e ∈ rest, allowedEv e = true) (hwf : wfOps (apiOps ⟨app, rest⟩) false = true) :
+    ∃ st, WInv st (Scenario.run env ⟨app, .new :: rest⟩) (specOf env rest) := by
+  obtain ⟨st', h⟩ := winv_run hq env rest 1 winv_init hr hwf
+  exact ⟨st', h⟩
+
+/-- **the wire denotes the abstract response**: once the head is out the wire re-parses, the
+    status line carries the code and reason set, the body is the written bytes in order, and under
+    every name the header block carries exactly the multiset of values set for it -/
+theorem WInv.wire_spec {st : Bool} {s : Sock} {sp : Spec} (h : WInv st s sp) (hs : sp.started = true) :
+    ∃ msg, Http.parse (Obs.wire s.log) = some msg ∧
+      Http.statusLine msg.start = some { code := sp.code.natAbs, reason := sp.reason } ∧
+      (sp.code.natAbs : Int) = sp.code ∧ msg.body = sp.body ∧
+      ∀ n, Http.sortBytes (Http.valuesOf n msg.headers) = splitVals (look (lower n) sp.values) := by
+  obtain ⟨head, cs, w1, w2, m, hh, hcode, hreason, hrel⟩ := h.wire1 hs
+  have hw : Obs.wire s.log =
+      (HTTP10 ++ intText sp.code ++ [SP] ++ sp.reason) ++ CRLF ++ Sock.headerLines m ++ CRLF ++ sp.body := by
+    rw [wire_eq_chunks, w1, List.flatten_cons, w2, hh]
+  refine ⟨_, by rw [hw]; exact parse_render _ m sp.body (CR_not_mem_start hcode hreason) hrel.wf,
+    statusLine_intText hcode _, by omega, rfl, ?_⟩
+  intro n
+  rw [valuesOf_eq, splitVals_eq]
+  exact sortBytes_perm (hrel.perm n)
+
+/-- nothing reaches the wire before the head, the first chunk written is the complete head
+    (status line, header block, blank line) and the remaining chunks are exactly the body:
+    the head is emitted exactly once and first, whether or not `writeHeaders` was called -/
+theorem WInv.head_once_first {st : Bool} {s : Sock} {sp : Spec} (h : WInv st s sp) :
+    (sp.started = false → chunks s.log = []) ∧
+    (sp.started = true → ∃ head cs start m, chunks s.log = head :: cs ∧ cs.flatten = sp.body ∧
+      head = start ++ CRLF ++ Sock.headerLines m ++ CRLF ∧
+      Http.statusLine start = some { code := sp.code.natAbs, reason := sp.reason } ∧
+      ∀ body, Http.parse (head ++ body) = some { start := start, headers := m, body := body }) := by
+  refine ⟨h.wire0, fun hs => ?_⟩
+  obtain ⟨head, cs, w1, w2, m, hh, hcode, hreason, hrel⟩ := h.wire1 hs
+  refine ⟨head, cs, HTTP10 ++ intText sp.code ++ [SP] ++ sp.reason, m, w1, w2, hh,
+    statusLine_intText hcode _, fun body => ?_⟩
+  rw [hh]
+  exact parse_render _ m body (CR_not_mem_start hcode hreason) hrel.wf
+
+theorem split_at_tc : ∀ {l : List Obs}, Obs.countP Obs.isTc l = 1 →
+    ∃ pre post, l = pre ++ Obs.tc :: post ∧ (∀ o ∈ pre, Obs.isTc o = false) ∧
+      (∀ o ∈ post, Obs.isTc o = false) ∧ afterTc l = Obs.tc :: post
+  | [], h => by simp [Obs.countP] at h
+  | o :: l, h => by
+    by_cases ho : Obs.isTc o = true
+    · have ho' : o = Obs.tc := by cases o <;> simp_all [Obs.isTc]
+      subst ho'
+      have hl : ∀ x ∈ l, Obs.isTc x = false := by
+        simp only [Obs.countP, List.filter_cons, ho, if_true, List.length_cons, Nat.add_eq_right,
+          List.length_eq_zero_iff, List.filter_eq_nil_iff] at h
+        intro x hx; simpa using h x hx
+      exact ⟨[], l, rfl, by simp, hl, by simp [afterTc, Obs.isTc]⟩
+    · have ho' : Obs.isTc o = false := by simpa using ho
+      have h' : Obs.countP Obs.isTc l = 1 := by
+        simpa [Obs.countP, List.filter_cons, ho'] using h
+      obtain ⟨pre, post, e, h1, h2, h3⟩ := split_at_tc h'
+      refine ⟨o :: pre, post, by rw [e]; rfl, ?_, h2, ?_⟩
+      · intro x hx
+        rcases List.mem_cons.mp hx with hx | hx
+        · subst hx; exact ho'
+        · exact h1 x hx
+      · simp only [afterTc, List.dropWhile_cons, ho', Bool.not_false, if_true] at h3 ⊢
+        exact h3
+
+/-- while the response is not closed the transport is not closed; once it is, the history is
+    `pre ++ tc :: post` with every write in `pre` — all bytes written before `close` are on
+    the wire before the transport is closed, and the wire never changes afterwards -/
+theorem WInv.flush_before_close {st : Bool} {s : Sock} {sp : Spec} (h : WInv st s sp) :
+    (sp.closed = false → ∀ o ∈ s.log, Obs.isTc o = false) ∧
+    (sp.closed = true → ∃ pre post, s.log = pre ++ Obs.tc :: post ∧
+      (∀ o ∈ pre, Obs.isTc o = false) ∧ (∀ o ∈ post, Obs.isTc o = false ∧ Obs.isW o = false) ∧
+      Obs.wire pre = Obs.wire s.log) := by
+  refine ⟨fun hc => (h.opn hc).logOpen, fun hc => ?_⟩
+  have hl := (h.shut hc).logShut
+  obtain ⟨pre, post, e, h1, h2, h3⟩ := split_at_tc hl.oneTc
+  have hw : ∀ o ∈ post, Obs.isW o = false := by
+    have := hl.noW
+    rw [h3] at this
+    have h4 : Obs.countP Obs.isW post = 0 := by
+      simpa [Obs.countP, List.filter_cons, show Obs.isW Obs.tc = false from rfl] using this
+    simp only [Obs.countP, List.length_eq_zero_iff, List.filter_eq_nil_iff] at h4
+    intro o ho; simpa using h4 o ho
+  have hpost : chunks post = [] := by
+    simp only [chunks, List.filterMap_eq_nil_iff]
+    intro o ho; have := hw o ho; cases o <;> simp_all [Obs.isW]
+  refine ⟨pre, post, e, h1, fun o ho => ⟨h2 o ho, hw o ho⟩, ?_⟩
+  · rw [wire_eq_chunks, wire_eq_chunks, e, chunks_append]
+    have : chunks (Obs.tc :: post) = [] := by
+      have : Obs.tc :: post = [Obs.tc] ++ post := rfl
+      rw [this, chunks_append, hpost]; rfl
+    rw [this, List.append_nil]
+
+/-! ### the convenience responses -/
+
+/-- the `started` flag `wfOps` reaches after a list of calls -/
+def stAfter (ops : List ApiOp) (st : Bool) : Bool := ops.foldl (fun st op => nextSt op st) st
+
+theorem wfOps_append (a c : List ApiOp) (st : Bool) :
+    wfOps (a ++ c) st = (wfOps a st && wfOps c (stAfter a st)) := by
+  induction a generalizing st with
+  | nil => simp [wfOps, stAfter]
+  | cons op a ih => simp only [List.cons_append, wfOps_cons, ih, stAfter, List.foldl_cons, Bool.and_assoc]
+
+theorem started_le (page : Int → Bytes → Bytes) {sp : Spec} {st : Bool} (h : sp.started = true → st = true)
+    (op : ApiOp) : (Spec.step page sp op).started = true → nextSt op st = true := by
+  cases hc : sp.closed
+  · cases hs : sp.started
+    · cases op <;> simp [Spec.step, hc, hs, nextSt, Spec.status]
+      rename_i n v r; cases r <;> simp
+    · intro _; exact nextSt_mono op (h hs)
+  · simp only [Spec.step, hc, if_true]; intro x; exact nextSt_mono op (h x)
+
+theorem started_le_foldl (page : Int → Bytes → Bytes) (ops : List ApiOp) :
+    ∀ {sp : Spec} {st : Bool}, (sp.started = true → st = true) →
+      (ops.foldl (Spec.step page) sp).started = true → stAfter ops st = true := by
+  induction ops with
+  | nil => intro sp st h; exact h
+  | cons op ops ih => intro sp st h; exact ih (started_le page h op)
+
+theorem foldl_step_closed (page : Int → Bytes → Bytes) (ops : List ApiOp) {sp : Spec} (h : sp.closed = true) :
+    ops.foldl (Spec.step page) sp = sp := by
+  induction ops with
+  | nil => rfl
+  | cons op ops ih =>
+    have : Spec.step page sp op = sp := by simp [Spec.step, h]
+    rw [List.foldl_cons, this, ih]
+
+/-- the body a convenience call sends with a `Content-Length` -/
+def convBody (env : Env) : ApiOp → Option Bytes
+  | .json b _ => some b
+  | .err c r => some (env.errPage c (effReason c r))
+  | _ => none
+
+def isConv : ApiOp → Bool
+  | .json _ _ | .err _ _ | .redir _ _ => true
+  | _ => false
+
+theorem conv_step (env : Env) {sp : Spec} (hc : sp.closed = false) (hs : sp.started = false) {op : ApiOp}
+    (hop : isConv op = true) :
+    (Spec.step env.errPage sp op).closed = true ∧ (Spec.step env.errPage sp op).started = true ∧
+    ∀ body, convBody env op = some body → (Spec.step env.errPage sp op).body = body ∧
+      look (lower CONTENT_LENGTH) (Spec.step env.errPage sp op).values = [natDigits body.length] := by
+  have hne : ¬ lower CONTENT_LENGTH = lower CONTENT_TYPE := by decide
+  cases op <;> simp only [isConv, Bool.false_eq_true] at hop
+  · rename_i c r
+    refine ⟨by simp [Spec.step, hc, hs], by simp [Spec.step, hc, hs], ?_⟩
+    intro body hb
+    simp only [convBody, Option.some.injEq] at hb
+    subst hb
+    have e : Spec.step env.errPage sp (.err c r) =
+        { sp with code := c, reason := effReason c r,
+                  values := setVals CONTENT_TYPE (fun _ => [TEXT_HTML]) (setVals CONTENT_LENGTH
+                    (fun _ => [natDigits (env.errPage c (effReason c r)).length]) sp.values),
+                  started := true, closed := true, body := env.errPage c (effReason c r) } := by
+      cases r <;> simp [Spec.step, hc, hs, Spec.status, effReason]
+    rw [e]
+    refine ⟨rfl, ?_⟩
+    show look _ (setVals _ _ (setVals _ _ _)) = _
+    rw [look_setVals, if_neg hne, look_setVals, if_pos rfl]
+  · exact ⟨by simp [Spec.step, hc, hs], by simp [Spec.step, hc, hs], fun body hb => by simp [convBody] at hb⟩
+  · rename_i b c
+    refine ⟨by simp [Spec.step, hc, hs], by simp [Spec.step, hc, hs], ?_⟩
+    intro body hb
+    simp only [convBody, Option.some.injEq] at hb
+    subst hb
+    have e : Spec.step env.errPage sp (.json b c) =
+        { sp with code := c, reason := statusReason c,
+                  values := setVals CONTENT_TYPE (fun _ => [APP_JSON]) (setVals CONTENT_LENGTH
+                    (fun _ => [natDigits b.length]) sp.values),
+                  started := true, closed := true, body := b } := by
+      simp [Spec.step, hc, hs, Spec.status]
+    rw [e]
+    refine ⟨rfl, ?_⟩
+    show look _ (setVals _ _ (setVals _ _ _)) = _
+    rw [look_setVals, if_neg hne, look_setVals, if_pos rfl]
+
+theorem apiOps_append (app : App) (a c : List Event) :
+    apiOps ⟨app, a ++ c⟩ = apiOps ⟨app, a⟩ ++ apiOps ⟨app, c⟩ := by
+  simp [apiOps]
+
+theorem splitVals_digits (n : Nat) : splitVals [natDigits n] = [natDigits n] := by
+  rw [splitVals_eq]
+  have : csplit (natDigits n) = [natDigits n] :=
+    splitAll_of_not_mem (c := 44) (d := [32]) (natDigits_not_mem n (Or.inl (by decide)))
+  simp [svals, this, sortBytes, insertSorted]
+
+/-- **convenience responses**: a `writeError` / `writeJson` / `writeRedirect` on a response that is
+    still open closes the connection (exactly one `tc`), and for the error page and the JSON
+    document the wire re-parses to a message whose body is the page / document and whose
+    `Content-Length` header carries exactly the decimal length of that body -/
+theorem convenience_content_length (env : Env) (app : App) (hq : QuietApp app) (evs1 evs2 : List Event)
+    (op : ApiOp) (hop : isConv op = true)
+    (hr : ∀ e ∈ evs1 ++ .api op :: evs2, allowedEv e = true)
+    (hwf : wfOps (apiOps ⟨app, evs1 ++ .api op :: evs2⟩) false = true)
+    (hopen : (specOf env evs1).closed = false) :
+    Obs.countP Obs.isTc (Scenario.run env ⟨app, .new :: (evs1 ++ .api op :: evs2)⟩).log = 1 ∧
+    ∀ body, convBody env op = some body →
+      ∃ msg, Http.parse (Obs.wire (Scenario.run env ⟨app, .new :: (evs1 ++ .api op :: evs2)⟩).log) = some msg ∧
+        msg.body = body ∧
+        Http.sortBytes (Http.valuesOf CONTENT_LENGTH msg.headers) = [natDigits body.length] := by
+  obtain ⟨st, h⟩ := run_winv env app hq _ hr hwf
+  have hwf' := hwf
+  rw [apiOps_append, apiOps_cons_api, wfOps_append, Bool.and_eq_true, wfOps_cons, Bool.and_eq_true] at hwf'
+  obtain ⟨_, hwop, _⟩ := hwf'
+  have hst : stAfter (apiOps ⟨app, evs1⟩) false = false := by
+    cases hx : stAfter (apiOps ⟨app, evs1⟩) false
+    · rfl
+    · rw [hx] at hwop; cases op <;> simp [isConv] at hop <;> simp [wfOp] at hwop
+  have hs0 : (specOf env evs1).started = false := by
+    cases hx : (specOf env evs1).started
+    · rfl
+    · have := started_le_foldl env.errPage (apiOps ⟨{}, evs1⟩) (sp := {}) (st := false) (by simp) hx
+      rw [show apiOps ⟨{}, evs1⟩ = apiOps ⟨app, evs1⟩ from rfl, hst] at this; cases this
+  obtain ⟨c1, c2, c3⟩ := conv_step env hopen hs0 hop
+  have hsp : specOf env (evs1 ++ .api op :: evs2) = Spec.step env.errPage (specOf env evs1) op := by
+    simp only [specOf]
+    rw [apiOps_append, apiOps_cons_api, List.foldl_append, List.foldl_cons]
+    exact foldl_step_closed _ _ c1
+  rw [hsp] at h
+  refine ⟨(h.shut c1).logShut.oneTc, fun body hb => ?_⟩
+  obtain ⟨d1, d2⟩ := c3 body hb
+  obtain ⟨msg, m1, _, _, m4, m5⟩ := h.wire_spec c2
+  exact ⟨msg, m1, by rw [m4, d1], by rw [m5, d2, splitVals_digits]⟩
+
+/-! ### the corollaries for runs -/
+
+section runs
+variable (env : Env) (app : App) (hq : QuietApp app) (rest : List Event)
+  (hr : ∀ e ∈ rest, allowedEv e = true) (hwf : wfOps (apiOps ⟨app, rest⟩) false = true)
+include hq hr hwf
+
+/-- C03_wire: the wire of every admissible run denotes the abstract response of its history -/
+theorem wire_denotes_spec (hs : (specOf env rest).started = true) :
+    ∃ msg, Http.parse (Obs.wire (Scenario.run env ⟨app, .new :: rest⟩).log) = some msg ∧
+      Http.statusLine msg.start =
+        some { code := (specOf env rest).code.natAbs, reason := (specOf env rest).reason } ∧
+      ((specOf env rest).code.natAbs : Int) = (specOf env rest).code ∧
+      msg.body = (specOf env rest).body ∧
+      ∀ n, Http.sortBytes (Http.valuesOf n msg.headers) = splitVals (look (lower n) (specOf env rest).values) := by
+  obtain ⟨st, h⟩ := run_winv env app hq rest hr hwf
+  exact h.wire_spec hs
+
+/-- C03_head_once_first -/
+theorem head_once_first :
+    ((specOf env rest).started = false → chunks (Scenario.run env ⟨app, .new :: rest⟩).log = []) ∧
+    ((specOf env rest).started = true → ∃ head cs start m,
+      chunks (Scenario.run env ⟨app, .new :: rest⟩).log = head :: cs ∧
+      cs.flatten = (specOf env rest).body ∧
+      head = start ++ CRLF ++ Sock.headerLines m ++ CRLF ∧
+      Http.statusLine start =
+        some { code := (specOf env rest).code.natAbs, reason := (specOf env rest).reason } ∧
+      ∀ body, Http.parse (head ++ body) = some { start := start, headers := m, body := body }) := by
+  obtain ⟨st, h⟩ := run_winv env app hq rest hr hwf
+  exact h.head_once_first
+
+/-- C03_flush_before_close -/
+theorem flush_before_close :
+    ((specOf env rest).closed = false → ∀ o ∈ (Scenario.run env ⟨app, .new :: rest⟩).log, Obs.isTc o = false) ∧
+    ((specOf env rest).closed = true → ∃ pre post,
+      (Scenario.run env ⟨app, .new :: rest⟩).log = pre ++ Obs.tc :: post ∧
+      (∀ o ∈ pre, Obs.isTc o = false) ∧ (∀ o ∈ post, Obs.isTc o = false ∧ Obs.isW o = false) ∧
+      Obs.wire pre = Obs.wire (Scenario.run env ⟨app, .new :: rest⟩).log) := by
+  obtain ⟨st, h⟩ := run_winv env app hq rest hr hwf
+  exact h.flush_before_close
+
+end runs
+
+/-! ### non-vacuity -/
+
+theorem quietApp_default : QuietApp {} := fun _ => ⟨rfl, rfl⟩
+theorem quietApp_script : QuietApp (Script.app {}) := fun _ => ⟨rfl, rfl⟩
+
+def exEnv : Env := { url := fun _ => none, errPage := fun c r => intText c ++ [SP] ++ r }
+
+/-- `hdrs:X-Tag=z,x-TAG=y status:404:~ hdr:X-tag:"b, c":a hdr:Set:1:r hdr:SET:2:r hdr:set:3:a
+    write:"he" ack:5 write:"llo" close ackall turn` (after `new`): mixed-case repeated names as a
+    whole map, in append and in replace mode, an implicit head, a body in two chunks, close. -/
+def exEvents : List Event :=
+  [ .api (.hdrs [(lit ['X','-','T','a','g'], lit ['z']), (lit ['x','-','T','A','G'], lit ['y'])]),
+    .api (.status 404 none),
+    .api (.hdr (lit ['X','-','t','a','g']) (lit ['b',',',' ','c']) false),
+    .api (.hdr (lit ['S','e','t']) (lit ['1']) true),
+    .api (.hdr (lit ['S','E','T']) (lit ['2']) true),
+    .api (.hdr (lit ['s','e','t']) (lit ['3']) false),
+    .api (.write (lit ['h','e'])), .ack 5, .api (.write (lit ['l','l','o'])),
+    .api .close, .ackAll, .turn ]
+
+example : ∀ e ∈ exEvents, allowedEv e = true := by decide
+example : wfOps (apiOps ⟨{}, .new :: exEvents⟩) false = true := by decide
+example : holds exEnv ⟨{}, .new :: exEvents⟩ (Scenario.run exEnv ⟨{}, .new :: exEvents⟩).log = true := by
+  decide +kernel
+/-- what that run put on the wire -/
+example : Obs.wire (Scenario.run exEnv ⟨{}, .new :: exEvents⟩).log =
+    lit ['H','T','T','P','/','1','.','0',' ','4','0','4',' ','N','O','T',' ','F','O','U','N','D','\r','\n',
+         'S','E','T',':',' ','2',',',' ','3','\r','\n',
+         'x','-','T','A','G',':',' ','y',',',' ','b',',',' ','c','\r','\n',
+         'X','-','T','a','g',':',' ','z','\r','\n','\r','\n','h','e','l','l','o'] := by decide +kernel
+/-- the history is closed, started, and denotes `{x-tag ↦ [z, y, "b, c"], set ↦ [2, 3]}` -/
+example : (specOf exEnv exEvents).closed = true ∧ (specOf exEnv exEvents).started = true ∧
+    (specOf exEnv exEvents).body = lit ['h','e','l','l','o'] ∧
+    look (lit ['x','-','t','a','g']) (specOf exEnv exEvents).values =
+      [lit ['z'], lit ['y'], lit ['b',',',' ','c']] ∧
+    look (lit ['s','e','t']) (specOf exEnv exEvents).values = [lit ['2'], lit ['3']] := by decide +kernel
+/-- an error page and a JSON document: the hypotheses of `convenience_content_length` are
+    satisfiable and the predicate holds on the run -/
+example : holds exEnv ⟨{}, [.new, .api (.status 201 none), .api (.err 500 none), .ackAll, .turn]⟩
+    (Scenario.run exEnv ⟨{}, [.new, .api (.status 201 none), .api (.err 500 none), .ackAll, .turn]⟩).log = true := by
+  decide +kernel
+example : isConv (.err 500 none) = true ∧
+    wfOps (apiOps ⟨{}, [.api (.status 201 none)] ++ .api (.err 500 none) :: [.ackAll, .turn]⟩) false = true ∧
+    (specOf exEnv [.api (.status 201 none)]).closed = false := by decide
 
 end Qhttp.C03
